@@ -27,6 +27,7 @@ struct MsgSpec {
     std::vector<std::string> chunk_ext;
     bool head_response = false;        // response to HEAD: headers may announce a body, none follows
     std::string eol = "\r\n";
+    Bytes lead;                        // white space sent before the request line (tolerated by the library, "IIS allows this"; C16 only)
     Bytes interim;                     // raw bytes of an interim (100) response sent before this response
     std::vector<std::pair<std::string, Bytes>> xexpect;   // derived ground truth (host, cookies, credentials, parameters)
 };
